@@ -256,10 +256,6 @@ theorem log_cleanupContexts (s : BSt) : (Backend.cleanupContexts s).log = s.log 
   · rfl
   · exact log_cleanupGo _ _
 
-theorem processEvent_flush (s : BSt) (st : Stmt) (f : Nat) (hk : st.kind = .flush f) :
-    processEvent s st = (flushSinks s, none, some f) := by
-  unfold processEvent; rw [hk]
-
 /-- **The Flush step.** When the backend processes a Flush event (it is the minimum front), it flushes every
     active sink, pops the event, (reports failure counters, cleans up contexts) and only then raises the flag:
     the log at the moment of the raise ends with `mid ++ blk ++ (the log before)`, `blk` holding a
